@@ -203,6 +203,7 @@ var orderCases = []struct {
 	{"dictionaries holding a differing number and a method", "如何F？\n    输出 1\n输出 【乙 = 1，甲 = F】 为 【乙 = 2，甲 = F】", nil},
 	{"list search among dictionaries holding methods", "如何F？\n    输出 1\n令L = 【【甲 = F，乙 = 1】】\n输出 以L（包含：【甲 = F，乙 = 2】）", nil},
 	{"two modules exporting the same two names", "导入“库一”\n导入“库二”\n输出 1", map[string]string{"库一": "如何甲？\n    输出 1\n如何乙？\n    输出 2\n", "库二": "如何甲？\n    输出 3\n如何乙？\n    输出 4\n"}},
+	{"import cycle among three modules", "导入“库一”\n导入“库三”\n输出 1", map[string]string{"库一": "导入“库二”\n如何甲？\n    输出 1\n", "库二": "导入“库三”\n导入“库一”\n如何乙？\n    输出 2\n", "库三": "如何丙？\n    输出 3\n"}},
 	{"object with three properties displayed", "定义T：\n    其甲设为1\n    其乙设为2\n    其丙设为3\n令O = （新建T）\n输出 “{}” % 【O】", nil},
 }
 
